@@ -608,7 +608,7 @@ func (g *Gen) boolean(d int) *X {
 		ps = append(ps, prod{4, func() *X { x := Call("LB", TBool, g.boolean(d-1)); x.Tag = g.tag(); return x }})
 	}
 	if g.Nil {
-		ps = append(ps, prod{3, func() *X { return g.nilCompare(d) }})
+		ps = append(ps, prod{5, func() *X { return g.nilCompare(d) }})
 	}
 	if g.ConstBias > 0 {
 		ps = append(ps, prod{10, func() *X { return g.constMembership(d) }}, prod{3, func() *X { return g.PureCall(TBool, d) }},
@@ -820,7 +820,9 @@ func retag(x *X, g *Gen) {
 func (g *Gen) nilCompare(d int) *X {
 	op := []string{"==", "!="}[g.pick(2, "nileq")]
 	var v *X
-	switch g.pick(7, "nilk") {
+	switch g.pick(10, "nilk") {
+	case 7, 8, 9:
+		v = g.nilSafeChain()
 	case 0:
 		v = Var("P", TPElem)
 	case 1:
@@ -849,7 +851,34 @@ func (g *Gen) nilCompare(d int) *X {
 // nilSafeChain: P?.Next?.V and friends. Once ?. has been used every later member access of the chain is
 // nil-safe too (the parser makes ?. sticky along a postfix chain), so the flags are monotone.
 func (g *Gen) nilSafeChain() *X {
-	switch g.pick(5, "nsc") {
+	k := g.pick(8, "nsc")
+	if k >= 5 && g.Spec != nil {
+		// nil-safe METHOD calls with arguments. They are generated only where the receiver is, at run time,
+		// either an untyped nil (an earlier ?. of the chain already produced nil) or a non-nil pointer: a call
+		// through a typed nil pointer fails inside reflect and nothing documents or pins that outcome.
+		e := &g.Spec.Env
+		switch k {
+		case 5:
+			if e.P == nil || e.P.Next != nil {
+				a := Field(Var("P", TPElem), "Next", TPElem)
+				a.NilSafe = true
+				return &X{K: "method", Name: "Add", A: []*X{a, LitInt(g.pick(4, "nsarg"))}, Ty: TInt, NilSafe: true}
+			}
+		case 6:
+			if e.PN == nil || e.PN.PE != nil {
+				a := Field(Var("PN", TPNest), "PE", TPElem)
+				a.NilSafe = true
+				return &X{K: "method", Name: "Label", A: []*X{a, LitStr("x")}, Ty: TStr, NilSafe: true}
+			}
+		case 7:
+			if e.P == nil || e.P.Next != nil {
+				a := Field(Var("P", TPElem), "Next", TPElem)
+				a.NilSafe = true
+				return &X{K: "method", Name: "Twice", A: []*X{a}, Ty: TInt, NilSafe: true}
+			}
+		}
+	}
+	switch k % 5 {
 	case 0:
 		x := Field(Var("P", TPElem), "V", TInt)
 		x.NilSafe = true
